@@ -17,6 +17,25 @@ use std::panic::{AssertUnwindSafe, catch_unwind};
 mod special;
 mod zero;
 
+/// Allocator that paints fresh blocks with 0xCD and freed blocks with 0xDD, so that a partially initialised
+/// value moved to the heap cannot be completed by the stale contents of an earlier instance with the same key.
+struct PaintAlloc;
+unsafe impl std::alloc::GlobalAlloc for PaintAlloc {
+    unsafe fn alloc(&self, l: std::alloc::Layout) -> *mut u8 {
+        let p = unsafe { std::alloc::System.alloc(l) };
+        if !p.is_null() {
+            unsafe { std::ptr::write_bytes(p, 0xCD, l.size()) };
+        }
+        p
+    }
+    unsafe fn dealloc(&self, p: *mut u8, l: std::alloc::Layout) {
+        unsafe { std::ptr::write_bytes(p, 0xDD, l.size()) };
+        unsafe { std::alloc::System.dealloc(p, l) }
+    }
+}
+#[global_allocator]
+static ALLOC: PaintAlloc = PaintAlloc;
+
 // ---------------------------------------------------------------------------------------------
 // object-safe view of a keyed cipher instance
 
@@ -466,9 +485,13 @@ fn exec(reg: &[Entry], line: &str) -> String {
         "probeclone" => {
             let Some(k) = arg(2) else { return "bad-op".into() };
             match (e.new_slice)(&k) {
-                Ok(o) => match o.try_clone() {
+                Ok(o) => match {
+                    zero::paint_stack(0xA5);
+                    o.try_clone()
+                } {
                     Some(c) => {
                         drop(o);
+                        zero::paint_stack(0x3C);
                         probe(&*c)
                     }
                     None => "noclone".into(),
